@@ -58,6 +58,11 @@ def pColl : P Coll := do
   let items ← pList pItem
   pure ⟨seq, items⟩
 
+/-- WIN := <ws> <we> <+|-> -/
+def pChunk : P Chunk := do
+  let ws ← pNat; let we ← pNat; let st ← pStrand
+  pure ⟨(ws, we), st⟩
+
 def pRec : P Rec := do
   let ty ← pStr; let st ← pStrand; let parts ← pBlocks; let q ← pDict
   pure { type := ty, strand := st, parts := parts, quals := q }
@@ -119,6 +124,30 @@ def ops : List (String × Op) := [
       let _fl ← pFlavor; let _trans ← pBool; let c ← pColl; pArrow
       let a ← get; set ([] : List String)
       if !writeDomain c then pure "n/a"
+      else pure (if a == ["ok", "clean"] then "pass" else "fail " ++ " ".intercalate (a.drop 2))),
+  -- the same three legs for a collection built on a sequence chunk (the line carries the CHROMOSOME sequence)
+  ("gbwk", do
+      let fl ← pFlavor; let _force ← pBool; let trans ← pBool; let k ← pChunk; let c ← pColl; pArrow
+      let internal := (← get).head? == some "err!"          -- an undocumented exception is never a refusal
+      let a ← pAns (pList pRec)
+      let shifted := (genesOf c).any fun g => g.txs.any fun t => t.coding && !t.oneFrame
+      if !chunkDomain k c || c.seq.isNone || (a.isNone && trans && shifted) then pure "n/a"
+      else if internal then pure "fail internal-error"
+      -- something has no base in the chunk and the writer did not refuse: no claim about what is written then
+      else if mayRefuse k c && a.isSome then pure "n/a"
+      else pure (report (writeViolationsK fl trans k c a))),
+  ("gbrtk", do
+      let fl ← pFlavor; let m ← pMode; let k ← pChunk; let c ← pColl; pArrow
+      let internal := (← get).head? == some "err!"
+      let a ← pAns (pList pPGene)
+      if !rtDomainK fl m k c || c.seq.isNone || (mayRefuse k c && a.isSome) then pure "n/a"
+      else if internal then pure "fail internal-error"
+      else pure (report (rtViolationsK fl k c a))),
+  ("gbck", do
+      let _fl ← pFlavor; let _trans ← pBool; let k ← pChunk; let c ← pColl; pArrow
+      let a ← get; set ([] : List String)
+      if !chunkDomain k c then pure "n/a"
+      else if a == ["ok", "refused"] then pure (if mayRefuse k c then "pass" else "fail refused")
       else pure (if a == ["ok", "clean"] then "pass" else "fail " ++ " ".intercalate (a.drop 2))),
   -- (c): the three strategies on one feature list
   ("gbm", do
